@@ -22,6 +22,7 @@ import Fca.Drv.C09
 import Fca.Drv.C17
 import Fca.Drv.C12
 import Fca.Drv.C11
+import Fca.Drv.C10
 open Lean Fca.Drv
 
 def allHandlers : List (String × Handler) :=
@@ -44,7 +45,8 @@ def allHandlers : List (String × Handler) :=
   Fca.Drv.C09.handlers ++
   Fca.Drv.C17.handlers ++
   Fca.Drv.C12.handlers ++
-  Fca.Drv.C11.handlers
+  Fca.Drv.C11.handlers ++
+  Fca.Drv.C10.handlers
 
 def dispatch (line : String) : String :=
   match Json.parse line with
